@@ -120,6 +120,30 @@ def runChk (s : St) (ws : List String) : String :=
       | some e => s.patQfree.getD e.pat s.qfree
       | none => s.qfree
     s!"{head} clause=h judge={verdict ok (explainA ms cs none)} corr=- n1={ms.length} n2={cs.length} wild={s.wild} qfree={pq}"
+  | "hr" :: m :: c :: raw :: kind :: rest =>
+    -- clause h under an intersecting range: the predicate-filtered capture stream against the
+    -- predicate-filtered match stream of the same range.  An extra capture that belongs to a RAW match
+    -- of that range (one the predicates reject) is a different failure than a capture of a state that
+    -- never becomes a match.
+    let inc := incOf kind (rest.map natOf)
+    let ms := getM s m; let cs := getC s c; let rms := getM s raw
+    let ok := judgeA ms cs inc s.oldRange
+    let tm := (allEvents ms).map CapEv.triple
+    let traw := (allEvents rms).map CapEv.triple
+    let extra := cs.filter fun e => !tm.contains e.triple
+    let why := match extra.head? with
+      -- (with alternations / quantifiers a rejected match can have a passing twin with the same capture
+      -- that the match view prunes: that is the known extra-capture behaviour, not this failure)
+      | some e => if traw.contains e.triple && s.patQfree.getD e.pat s.qfree then s!"capture-of-predicate-failing-match n={extra.length} first=({e.pat},{e.cap.idx},{e.cap.node})"
+                  else explainA ms cs inc s.oldRange
+      | none => explainA ms cs inc s.oldRange
+    let evs := visibleEvents ms inc s.oldRange
+    let tc := cs.map CapEv.triple
+    let missing := evs.filter fun e => !tc.contains e.triple
+    let pq := match missing.head? with
+      | some e => s.patQfree.getD e.pat s.qfree
+      | none => s.qfree
+    s!"{head} clause=h judge={verdict ok why} corr=- n1={ms.length} n2={cs.length} ranged=true wild={s.wild} qfree={pq}"
   | "b" :: u :: r :: mode :: kind :: rest =>
     let v := rest.map natOf
     let rng := (incOf kind v).getD defaultRange
